@@ -70,7 +70,6 @@ package cache
 // never returned - the cache key is a byte string laid out from exactly those
 // four components of the REQUEST.
 
-//@ fun lowerOf(s string) string
 //@ pred hasDO(m *dns.Msg) = exists i int :: lastOPT(m, i) && optDo(optAt(m, i).Hdr.Ttl)
 //@ pred keyLayout(k string, do bool, qtype int, qclass int, name string) = len(k) == 5 + len(lowerOf(name)) &&
 //@      k[0] == (do ? 1 : 0) && k[1] * 256 + k[2] == qtype && k[3] * 256 + k[4] == qclass &&
